@@ -194,7 +194,7 @@ def check_table(ctx, files, rid="K1.table"):
     live = {v: live_sites(facts, v) for v in ("prod", "tsan")}
     n = 0
     for e in table:
-        if not any(e["file"].endswith(f) for f in files):
+        if not any(f in e["file"] for f in files):
             continue
         pat, field, kind, variant = e["pat"], e["field"], e["kind"], e["variant"]
         shapes = [f for f in facts.shapes(pat) if variant in f.variants]
@@ -300,7 +300,7 @@ def check_comments(ctx, files, rid="K1.comment", rid2="K1.recip"):
     import glob
     paths = []
     for f in sorted(glob.glob(os.path.join(REPO, "xenium", "**", "*.hpp"), recursive=True)):
-        if any(f.endswith(s) for s in files):
+        if any(s in f for s in files):
             paths.append(f)
     comments = parse_comments(paths)
     # ops by file/line
@@ -333,10 +333,9 @@ def check_comments(ctx, files, rid="K1.comment", rid2="K1.recip"):
         lines = by_file.get(c["file"], {})
         nxt = min([x["line"] for x in comments if x["file"] == c["file"] and x["line"] > c["line"]] + [c["endline"] + 15])
         bound = None
-        for ln in range(c["endline"], min(nxt, c["endline"] + 15) + 1):
-            if ln in lines:
-                bound = ln
-                break
+        window = [ln for ln in range(c["endline"], min(nxt - 1, c["endline"] + 8) + 1) if ln in lines]
+        if window:
+            bound = window[0]
         if bound is None:
             # comment with a claim but no instantiated operation after it: the operation was removed (or the code is
             # not instantiated by the matrix); the table rule decides removal, here it is a coverage note only
@@ -361,6 +360,22 @@ def check_comments(ctx, files, rid="K1.comment", rid2="K1.recip"):
                 return k.startswith("fetch") or k == "call:decrement_refcnt"
             return True
         sel = [x for x in cands if kind_ok(x[2])] or cands
+        # robustness: if the first operation after the comment does not satisfy the claim but a later one in the window (before the
+        # next numbered comment, at most 8 lines) of the claimed kind does, the comment is bound to that one (an unrelated relaxed
+        # access inserted between comment and operation must not raise an alarm; removal/weakening is decided by K1.table)
+        def satisfies(entry):
+            v, fn, op = entry
+            o = op["orders"][0]
+            if want_kind == "reload" and normalise_kind(op["kind"]) == "cas" and len(op["orders"]) > 1:
+                o = op["orders"][1]
+            return sat(o, c["order"])
+        if not all(satisfies(x) for x in sel):
+            for ln in window[1:]:
+                alt = [x for x in lines[ln] if kind_ok(x[2])]
+                if alt and all(satisfies(x) for x in alt):
+                    sel = alt
+                    bound = ln
+                    break
         worst = None
         for v, fn, op in sel:
             o = op["orders"][0]
@@ -391,7 +406,7 @@ def check_tsan_geq(ctx, files, rid="K1.tsan"):
         ts = lt.get(key)
         if not ts:
             continue
-        if not any(ps[0]["file"].endswith(f) for f in files):
+        if not any(f in ps[0]["file"] for f in files):
             continue
         tl = {(s["file"], s["line"]): s for s in ts}
         for s in ps:
